@@ -719,6 +719,8 @@ def adaptive_scan(
     _check_detectors_type_input(detectors)
     if not 0 < min_step < max_step:
         raise ValueError("min_step and max_step must meet condition of max_step > min_step > 0")
+    if threshold is not None and not 0 < threshold < 1:
+        raise ValueError("threshold must meet condition of 0 < threshold < 1")
 
     _md = {
         "detectors": [det.name for det in detectors],
